@@ -143,76 +143,7 @@ def run(chk, w):
             else:
                 chk.violation("C03-SYM", name, ns.CMR, s.loc(), "amount %s the budget is not the table's response size bidib_response_info[type][1]" % ("added to" if v.op == "add" else "released from"))
 
-    # ---- FIFO
-    chk.rule("C03-FIFO", "deferred-message and awaited-answer queues: only FIFO operations, only fresh entries are pushed, direct admission requires an empty deferred queue")
-    nq = 0
-    for fld in (ns.MSGQ, ns.RESPQ):
-        for (f, i) in R.qcalls.get(fld, []):
-            nq += 1
-            if i.callee not in ALLOWED_Q:
-                chk.violation("C03-FIFO", f.name, fld, i.loc(), "%s on %s breaks first-in-first-out order" % (i.callee, fld))
-                continue
-            if i.callee == "g_queue_push_tail":
-                srcs = flow.origins(f, i.args[1])
-                fresh = srcs and all(t[0] == "call" and t[1] in ("malloc", "calloc", "g_malloc", "g_malloc0") for t in srcs)
-                if not fresh:
-                    chk.violation("C03-FIFO", f.name, fld, i.loc(), "an entry that is not freshly allocated is appended to %s (re-queued entries lose their place)" % fld)
-                    continue
-            chk.ok("C03-FIFO", 1, {"call": i.callee, "queue": fld, "at": i.loc()})
-    chk.floor("queue_api_calls", nq, 12)
-    # direct admission guarded by is_empty(message_queue)
-    for adder in sorted(R.adders):
-        for cf, ci in P.callers().get(adder, []):
-            if cf.name in R.retry:
-                continue
-            ok = False
-            for (br, taken) in rules.branch_conditions(cf, ci):
-                c = cf.resolve(br["cond"])
-                # is_empty(...) != 0 taken
-                call = None
-                if c is not None and c.op == "icmp" and rules.const_of(cf, c["b"]) == 0:
-                    call = cf.resolve(rules.strip_casts(cf, c["a"]))
-                    pol = (c["pred"] == "ne") == taken
-                elif c is not None and c.op == "call":
-                    call, pol = c, taken
-                if call is not None and call.op == "call" and call.callee == "g_queue_is_empty" and ns.queue_field_of_call(P, cf, call) == ns.MSGQ and pol:
-                    ok = True
-            if ok:
-                chk.ok("C03-FIFO", 1, {"direct_admission": ci.loc(), "guard": "deferred queue empty"})
-            else:
-                chk.violation("C03-FIFO", cf.name, "overtake", ci.loc(), "direct admission is not guarded by an empty deferred queue: a newer message can overtake held ones")
-
-    # the admission function (returns bool, reaches both the adder and a push onto the deferred queue): every point where its
-    # result becomes 'true' (transmit now) lies behind the empty-deferred-queue test
-    pushers = {f.name for (f, i) in R.qcalls.get(ns.MSGQ, []) if i.callee == "g_queue_push_tail"}
-    def near(f, targets):
-        # called directly, or by a direct callee (one helper level)
-        for c in f.calls():
-            if c.callee in targets:
-                return True
-            g = P.functions.get(c.callee) if c.callee else None
-            if g is not None and g.blocks and any(c2.callee in targets for c2 in g.calls()):
-                return True
-        return False
-    adm_fns = [f for f in P.repo_functions() if f.ret == "i1" and any(c.callee in R.adders for c in f.calls()) and (f.name in pushers or near(f, pushers))]
-    chk.floor("admission_functions", len(adm_fns), 1)
-    for f in adm_fns:
-        for (s, why) in true_result_points(f):
-            ok = False
-            for (br, taken) in rules.branch_conditions(f, s):
-                c = f.resolve(br["cond"])
-                call = None
-                if c is not None and c.op == "icmp" and rules.const_of(f, c["b"]) == 0:
-                    call = f.resolve(rules.strip_casts(f, c["a"]))
-                    pol = (c["pred"] == "ne") == taken
-                elif c is not None and c.op == "call":
-                    call, pol = c, taken
-                if call is not None and call.op == "call" and call.callee == "g_queue_is_empty" and ns.queue_field_of_call(P, f, call) == ns.MSGQ and pol:
-                    ok = True
-            if ok:
-                chk.ok("C03-FIFO", 1, {"admit_true": s.loc(), "guard": "deferred queue empty"})
-            else:
-                chk.violation("C03-FIFO", f.name, "admit-without-empty-queue", s.loc(), "the admission result becomes true (%s) on a path that does not require the node's deferred queue to be empty: the message overtakes held ones" % why)
+    fifo_rules(chk, w, R, "C03-FIFO")
 
     # ---- POP: a deferred message leaves the queue only on the branch that transmits it
     chk.rule("C03-POP", "a deferred message is removed from its queue only where it is transmitted (after the budget test succeeded)")
@@ -279,6 +210,62 @@ def _branch_tag(f, s):
         if c is not None and c.op == "fcmp":
             return "expiry"
     return "other"
+
+
+def fifo_rules(chk, w, R, rid, fields=(ns.MSGQ, ns.RESPQ)):
+    """first-in-first-out use of the per-node queues and no overtaking of held messages (shared by C03, C04, C05: the order in which
+    held messages reach the wire is the order of submission, which is also the order of their sequence numbers)"""
+    P = w.P
+    # ---- FIFO
+    chk.rule(rid, "deferred-message%s queues: only FIFO operations, only fresh entries are pushed, direct admission requires an empty deferred queue" % (" and awaited-answer" if ns.RESPQ in fields else ""))
+    nq = 0
+    for fld in fields:
+        for (f, i) in R.qcalls.get(fld, []):
+            nq += 1
+            if i.callee not in ALLOWED_Q:
+                chk.violation(rid, f.name, fld, i.loc(), "%s on %s breaks first-in-first-out order" % (i.callee, fld))
+                continue
+            if i.callee == "g_queue_push_tail":
+                srcs = flow.origins(f, i.args[1])
+                fresh = srcs and all(t[0] == "call" and t[1] in ("malloc", "calloc", "g_malloc", "g_malloc0") for t in srcs)
+                if not fresh:
+                    chk.violation(rid, f.name, fld, i.loc(), "an entry that is not freshly allocated is appended to %s (re-queued entries lose their place)" % fld)
+                    continue
+            chk.ok(rid, 1, {"call": i.callee, "queue": fld, "at": i.loc()})
+    chk.floor("queue_api_calls", nq, 12 if ns.RESPQ in fields else 6)
+    # direct admission guarded by is_empty(message_queue)
+    for adder in sorted(R.adders):
+        for cf, ci in P.callers().get(adder, []):
+            if cf.name in R.retry:
+                continue
+            ok = any(ns.empty_queue_guard(P, cf, br, taken) == ns.MSGQ for (br, taken) in rules.conditions_at(cf, ci))
+            if ok:
+                chk.ok(rid, 1, {"direct_admission": ci.loc(), "guard": "deferred queue empty"})
+            else:
+                chk.violation(rid, cf.name, "overtake", ci.loc(), "direct admission is not guarded by an empty deferred queue: a newer message can overtake held ones")
+
+    # the admission function (returns bool, reaches both the adder and a push onto the deferred queue): every point where its
+    # result becomes 'true' (transmit now) lies behind the empty-deferred-queue test
+    pushers = {f.name for (f, i) in R.qcalls.get(ns.MSGQ, []) if i.callee == "g_queue_push_tail"}
+    def near(f, targets):
+        # called directly, or by a direct callee (one helper level)
+        for c in f.calls():
+            if c.callee in targets:
+                return True
+            g = P.functions.get(c.callee) if c.callee else None
+            if g is not None and g.blocks and any(c2.callee in targets for c2 in g.calls()):
+                return True
+        return False
+    adm_fns = [f for f in P.repo_functions() if f.ret == "i1" and any(c.callee in R.adders for c in f.calls()) and (f.name in pushers or near(f, pushers))]
+    chk.floor("admission_functions", len(adm_fns), 1)
+    for f in adm_fns:
+        for (s, why) in true_result_points(f):
+            ok = any(ns.empty_queue_guard(P, f, br, taken) == ns.MSGQ for (br, taken) in rules.conditions_at(f, s))
+            if ok:
+                chk.ok(rid, 1, {"admit_true": s.loc(), "guard": "deferred queue empty"})
+            else:
+                chk.violation(rid, f.name, "admit-without-empty-queue", s.loc(), "the admission result becomes true (%s) on a path that does not require the node's deferred queue to be empty: the message overtakes held ones" % why)
+
 
 
 def true_result_points(f):
